@@ -55,7 +55,7 @@ def run(ctx):
     ctx.assumptions += ["documents are error-free and generated (grammar-directed units + one deep block), single numeric-token replacement",
                         "constants and wall-clock cost are runtime behaviour: measured, not proved"]
     ctx.regen()
-    ctx.prove(["TsVerif.C12.Props", "TsVerif.C12.Round11", "TsVerif.C12.Round11b"], "TsVerif/C12/Audit.lean")
+    ctx.prove(["TsVerif.C12.Props", "TsVerif.C12.Round11", "TsVerif.C12.Round11b", "TsVerif.C12.Round11c"], "TsVerif/C12/Audit.lean")
     driver = ctx.build_driver("tsv-c12")
     explorer = ctx.cargo_bin("c12")
     if not (explorer and os.path.exists(driver)):
@@ -157,11 +157,17 @@ def run(ctx):
             judge_bad += 1
             if interrupted:
                 intr_bad += 1
+                # replay spec with the cancel point made explicit (`<pos>@k<i>[,<j>]`, 0-based callback indices over the whole drive)
+                rspec = specs.get(cid, "")
+                if intr.get("cancel_at", "-") not in ("-", "") and "@" in rspec and "@k" not in rspec:
+                    f4 = rspec.split(" ")
+                    f4[2] = f4[2].split("@")[0] + "@k" + intr["cancel_at"]
+                    rspec = " ".join(f4)
                 ctx.violation("judge", "C12 judge failed on the real re-parse INTERRUPTED by the progress callback at callback(s) %s of %s "
                               "and resumed (sums over %s runs; lexed per run %s, bytes served per run %s): %s"
                               % (intr.get("cancel_at", "?"), intr.get("callbacks_uncancelled", "?"), intr.get("runs", "?"),
                                  intr.get("lexed_per_run", "?"), intr.get("bytes_per_run", "?"), kv["judge"]),
-                              {"case": cid, "spec": specs.get(cid, ""), "cancel_at_callbacks": intr.get("cancel_at", ""),
+                              {"case": cid, "spec": rspec, "spec_as_scheduled": specs.get(cid, ""), "cancel_at_callbacks": intr.get("cancel_at", ""),
                                "edit": edits.get(cid, ""), "interrupt": intr, "result": kv},
                               fingerprint={"lang": lang, "clause": kv["judge"][:50], "interrupted": True})
                 continue
